@@ -64,7 +64,7 @@ func classifyReadErr(err error) string {
 	switch {
 	case err == io.EOF:
 		return "eof"
-	case err == io.ErrUnexpectedEOF, err == errTransport:
+	case err == io.ErrUnexpectedEOF, err == errTransport, err == errMemRead:
 		return "errHeader"
 	}
 	s := err.Error()
